@@ -151,6 +151,8 @@ def differ(f, g, limit=16):
     names = atoms_of(f)
     atoms_of(g, names)
     if len(names) > limit:
+        if len(names) <= 4 * limit:
+            return differ_expand(f, g)
         raise TooBig("%d atomic propositions" % len(names))
     for vals in itertools.product((False, True), repeat=len(names)):
         env = dict(zip(names, vals))
@@ -159,6 +161,49 @@ def differ(f, g, limit=16):
         if evaluate(f, env) != evaluate(g, env):
             return env
     return None
+
+
+def _norm_key(f):
+    """Structural key of a formula with the operands of and/or sorted and duplicates removed (for the early exit of the expansion)."""
+    k = f[0]
+    if k in ("const", "atom"):
+        return repr(f)
+    if k == "not":
+        return "!(" + _norm_key(f[1]) + ")"
+    return k + "(" + ",".join(sorted(set(_norm_key(x) for x in f[1]))) + ")"
+
+
+def differ_expand(f, g, budget=200000):
+    """Equivalence of two formulas over MANY atomic propositions by Shannon expansion: fix one proposition, simplify both sides,
+    stop as soon as they are constants or literally the same formula.  Formulas that differ only locally need few steps whatever
+    the number of propositions.  -> None (equivalent on every feasible assignment) or a witness; TooBig when the budget is spent."""
+    steps = [0]
+
+    def rec(f_, g_, env):
+        steps[0] += 1
+        if steps[0] > budget:
+            raise TooBig("expansion budget of %d steps spent" % budget)
+        if f_[0] == "const" and g_[0] == "const":
+            return None if f_[1] == g_[1] else dict(env)
+        if _norm_key(f_) == _norm_key(g_):
+            return None
+        names = atoms_of(f_)
+        atoms_of(g_, names)
+        a = names[0]
+        for val in (True, False):
+            e2 = {a: val}
+            if val and a.startswith("eq:"):
+                subj = a[3:].rsplit("==", 1)[0]
+                for other in names[1:]:
+                    if other.startswith("eq:") and other[3:].rsplit("==", 1)[0] == subj:
+                        e2[other] = False          # one subject equals at most one constant
+            env2 = dict(env)
+            env2.update(e2)
+            w = rec(partial(f_, e2), partial(g_, e2), env2)
+            if w is not None:
+                return w
+        return None
+    return rec(f, g, {})
 
 
 def equivalent(f, g, limit=16):
